@@ -866,6 +866,34 @@ def r16_10(ctx, prog, crate):
               "prefers --sortr wherever it stands", cmd.where(0))
 
 
+def run_extra(ctx):
+    """R16.11 location order keeps the declaration order of a benchmark's type instantiations: they share one location, so
+    cmp_by_attr falls back to the entries' addresses (R16.5) - which follow the order of `types = [...]` only because the
+    macro emits the instantiations of a types-only benchmark as the elements of ONE array literal. Separate statics are laid
+    out by the linker, not by source order. Analysed on the macro expansions (engine E3)."""
+    import re
+    from . import C12
+    C12.ensure_tool()
+    ctx.cfg = "expand"
+    n = 0
+    for t in C12.targets(ctx.tier):
+        exp = C12.expand_target(t)
+        for r in C12.tool("regs", exp)["regs"]:
+            for st in r.get("structs", []):
+                gb = st.get("fields", {}).get("generic_benches")
+                if not gb:
+                    continue
+                g = re.sub(r"\s+", "", gb)
+                if not g.startswith("::std::option::Option::Some(") or "__DIVAN_CONSTS" in g:
+                    continue          # not generic, or a consts dimension (exempt: the property lets it fall back to name order)
+                n += 1
+                one_array = g.startswith("::std::option::Option::Some({&[&[") and "static__DIVAN_GENERIC_BENCHES" not in g
+                ctx.check(one_array, "R16.11", [t["name"], r.get("static", "?"), "type-instantiations-in-one-array"],
+                          "the type instantiations of %s are not the elements of one array literal: their addresses (the location "
+                          "tie-break) no longer follow the declaration order of `types = [...]`" % r.get("static", "?"), t["name"])
+    ctx.anchor("R16.11", "types-only generic benchmarks in the macro expansions", n, 2)
+
+
 def run(ctx, prog, crate):
     r16_10(ctx, prog, crate)
     r16_9(ctx, prog, crate)
